@@ -111,6 +111,9 @@ def selftest(c):
         da = (a["digest"], a["ndigest"])
         job = {"kind": "seed", "run_seed": s, "property": c.prop, "tier": c.tier, "known": c.known_sigs,
                "disabled": c.disabled}
+        if not (a.get("scenario_digest") == b.get("scenario_digest") == cc.get("scenario_digest")):
+            raise HarnessError(f"selftest: run seed {s} generated different scenarios in different worker pools: the "
+                               "generator is not a pure function of the seed (or /verif changed while the check ran)")
         if da != (b["digest"], b["ndigest"]):
             same_hash_div += 1
             settle_divergence(c, job, h1, h1, s, out)
